@@ -66,7 +66,8 @@ def gen_cases(tier, seed):
         trailing = r.choice(["data", "hole", "hole"])
         yield {"driver": driver, "lead": lead, "lens": lens, "trailing": trailing, "nseg": nseg, "block": blocks[i % len(blocks)],
                "workers": r.choice([1, 2, 4, 16]), "prior": r.choice(["absent", "absent", "full"]), "sync": r.random() < 0.6,
-               "fs": "tmpfs" if r.random() < 0.35 else "ext4", "seed": r.randrange(1, 1 << 30)}
+               "fs": "tmpfs" if r.random() < 0.35 else "ext4", "seed": r.randrange(1, 1 << 30),
+               "extra": r.choice([[], [], [], ["--fsync"], ["--no-perms", "--no-timestamps"], ["--reflink", "never"], ["--backup", "numbered"], ["--ownership"], ["-L"]])}
 
 
 def alloc(path):
@@ -96,7 +97,7 @@ def copy_once(sb, case, scale, res):
                 f.write(blk[:min(len(blk), left)])
                 left -= len(blk)
             os.fsync(f.fileno())
-    args = ["--driver", case["driver"], "-w", str(case["workers"])] + (["--no-progress"] if case["block"] == "np" else ["--block-size", case["block"]]) + ["s", "d"]
+    args = ["--driver", case["driver"], "-w", str(case["workers"])] + (["--no-progress"] if case["block"] == "np" else ["--block-size", case["block"]]) + case.get("extra", []) + ["s", "d"]
     run = core.run_plain(core.xcp_argv(args), root, timeout=300)
     if run.verdict != "exited":
         res["inconc"].append("run-" + run.verdict)
